@@ -1373,10 +1373,10 @@ class Node:
 
         See also :ref:`iteration-callbacks`.
         """
-        if data:
+        if data is not None:
             assert data_id is None
             data_id = self._tree.calc_data_id(data)
-        if data_id:
+        if data_id is not None:  # may be falsy, e.g. `0` or `""`
             assert match is None
             return [
                 n for n in self.iterator(add_self=add_self) if n._data_id == data_id
